@@ -194,6 +194,11 @@ func rewriteOwn(st *Store, c cid.Cid, mode string, isRoot bool) (format.Node, er
 		// a link node that also carries inline bytes (legal protobuf; this library reads the children only)
 		d.Data = []byte("XY")
 	}
+	if mode == "shortfs" && isRoot && len(d.Blocksizes) > 1 {
+		// a stale FileSize that covers the first child only; Links and BlockSizes still describe every child
+		fs := d.Blocksizes[0]
+		d.Filesize = &fs
+	}
 	if mode == "mtime" && isRoot {
 		sec := int64(-86400)
 		d.Mtime = &pb.IPFSTimestamp{Seconds: &sec}
